@@ -67,7 +67,7 @@ TEmit ==
   /\ LET v == EmitVerdict(Log[l])
      IN IF v = "ok"
         THEN cnt' = cnt + 1 /\ l' = l + 1 /\ UNCHANGED <<inp, ment, delivered, eof, exp>>
-        ELSE Skip(l, [what |-> v, cls |-> ment.cls, name |-> ment.name,
+        ELSE Skip(l, [what |-> v, cls |-> ment.cls, name |-> ment.name, kind |-> rs.k, all |-> Expected,
                       expected |-> IF cnt + 1 <= Len(Expected) THEN <<Expected[cnt + 1]>> ELSE <<>>,
                       delivered |-> delivered])
 
@@ -75,11 +75,12 @@ TEnd ==
   /\ l <= NLog /\ Log[l].ev = "end"
   /\ IF cnt = Len(Expected) /\ eof
      THEN l' = l + 1 /\ UNCHANGED <<inp, ment, delivered, eof, cnt, exp>>
-     ELSE Skip(l, [what |-> "missing-record", cls |-> ment.cls, name |-> ment.name,
+     ELSE Skip(l, [what |-> "missing-record", cls |-> ment.cls, name |-> ment.name, kind |-> rs.k, all |-> Expected,
                    expected |-> IF cnt + 1 <= Len(Expected) THEN <<Expected[cnt + 1]>> ELSE <<>>, delivered |-> delivered])
 
 TCrash == l <= NLog /\ Log[l].ev = "crash"
-          /\ Skip(l, [what |-> "crash", cls |-> ment.cls, name |-> ment.name, expected |-> <<>>, delivered |-> delivered])
+          /\ Skip(l, [what |-> "crash", cls |-> ment.cls, name |-> ment.name, kind |-> rs.k, all |-> Expected,
+                      expected |-> <<>>, delivered |-> delivered])
 
 TDone == l = NLog + 1 /\ PrintT("TRACE-END") /\ l' = l + 1 /\ UNCHANGED <<inp, ment, delivered, eof, cnt, exp>>
 
